@@ -114,7 +114,28 @@ def run(R):
                 bad.append((gop, "crypt fails (%s) on the generated setting %r" % (f.get("errno"), s), line))
             elif not unhx(f["out"]).startswith(s):
                 bad.append((gop, "the hash %r does not have the generated setting %r as a literal prefix" % (unhx(f["out"]), s), line))
-    R.cov["evaluations"] = len(gops) + len(cops)
+    # digit-count class "nine-digit rounds" (count >= 100000000 for sha256crypt / sha512crypt): the cheapest member costs ~30 s of SHA-crypt, so
+    # these few run on the implementation only, in parallel; the generated setting must be accepted and kept like any other (seeded/C10e: the
+    # rounds tag of a nine-digit count lost its `$`)
+    import concurrent.futures, subprocess
+    exe = R.harness()
+    def run1(o):
+        return subprocess.run([exe], input=o + "\n", text=True, capture_output=True, timeout=3000).stdout.splitlines()[0]
+    exp = [(b"$5$", 100000000), (b"$6$", 100000000)] + ([(b"$5$", 999999999), (b"$6$", 2**32 - 1)] if not quick else [])
+    exp_g = ["G rn %s %d %s 16 192" % (hx(pfx), c, hx(bytes(range(1, 17)))) for pfx, c in exp]
+    exp_s = [fields(run1(o)).get("ret") for o in exp_g]
+    exp_c = [CS.crypt_op("rn", 0, b"", unhx(sx)) for sx in exp_s if sx not in (None, "NULL")]
+    with concurrent.futures.ThreadPoolExecutor(max(1, len(exp_c))) as ex:
+        exp_l = list(ex.map(run1, exp_c))
+    for g, sx in zip(exp_g, exp_s):
+        if sx in (None, "NULL"): bad.append((g, "crypt_gensalt_rn fails for a count inside the documented range", str(sx)))
+    for g, c, l in zip([g for g, sx in zip(exp_g, exp_s) if sx not in (None, "NULL")], exp_c, exp_l):
+        f = fields(l); sset = unhx(c.split(" ")[4])
+        if f.get("ret") == "NULL": bad.append((g + " ; " + c, "crypt fails (%s) on the generated setting %r" % (f.get("errno"), sset), l))
+        elif not unhx(f["out"]).startswith(sset) or len(unhx(f["out"])) <= len(sset):
+            bad.append((g + " ; " + c, "the hash %r does not have the generated setting %r as a literal prefix followed by a digest" % (unhx(f["out"]), sset), l))
+    R.cov["implementation_only_expensive_ops"] = len(exp_c)
+    R.cov["evaluations"] = len(gops) + len(cops) + len(exp_c)
     R.cov["distinct_nontrivial"] = len({(m[0], m[1], m[2]) for m in gmeta})
     R.cov["rule"] = ("15 prefixes + NULL + full hashes as prefix x cheap/valid count classes x nrbytes classes 0..256 x {rn, ra, static} at output size 192, plus crypt_gensalt_rn at output sizes 193..65536 (result < 192 characters and independent of the size); each generated setting "
                      "goes to crypt_checksalt and (compute budget permitting) to crypt with two phrases; non-trivial = distinct (prefix, count, nrbytes)")
